@@ -157,7 +157,12 @@ class PassAnalysis:
                             classes |= self.mn_classes.get(x[3][1], set())
                         if len(classes) == 1:
                             st.fact(self.item)['isa'].add(next(iter(classes)))
-        consumed = self.sizes.size(self.item, st)
+        try:
+            consumed = self.sizes.size(self.item, st)
+        except AnalysisError as e:
+            # size() of the consumed item is not understood: the byte accounting of this path has no verdict (deferred by the
+            # conservation rule); everything else that is read off the path (what is built, which rule matched) is unaffected
+            consumed = LinS({('opaque', 'size(): ' + str(e)[:100]): 1})
         appended = LinS()
         app_values = []
         foreign = []
@@ -166,7 +171,10 @@ class PassAnalysis:
                 if meth == 'extend':
                     appended = appended + LinS({('size-of-list', val): 1})
                 else:
-                    appended = appended + self.sizes.size(val, st)
+                    try:
+                        appended = appended + self.sizes.size(val, st)
+                    except AnalysisError as e:
+                        appended = appended + LinS({('opaque', 'size(): ' + str(e)[:100]): 1})
                 app_values.append((val, node))
             else:
                 foreign.append((recv, val, node))
